@@ -224,7 +224,37 @@ class PureEvalError(Exception):
     pass
 
 
-def eval_pure_function(fn: ast.FunctionDef, args: dict, data_attrs: tuple = (), extra: Optional[dict] = None, max_steps: int = 2000) -> Any:
+def builder_expr_eval(allowed_methods: tuple = ()):
+    """Expression evaluator for the AST *builders* of subheader.py: only `ast.<Class>(...)` constructors, isinstance, the pure
+    builtins and the named methods of the supplied (fake) objects may be called; names must be bound in the environment."""
+    def ev(e: ast.expr, env: dict):
+        for n in ast.walk(e):
+            if isinstance(n, ast.Call):
+                f = n.func
+                ok = (isinstance(f, ast.Name) and f.id in ("isinstance", "len", "bool", "str", "tuple", "list", "dict")) or \
+                    (isinstance(f, ast.Attribute) and isinstance(f.value, ast.Name) and f.value.id == "ast") or \
+                    (isinstance(f, ast.Attribute) and f.attr in allowed_methods) or \
+                    (isinstance(f, ast.Name) and f.id in env and f.id in allowed_methods)
+                if not ok:
+                    raise PureEvalError(f"call `{norm_stmt(f)}` outside the builder subset")
+            elif isinstance(n, ast.Name) and isinstance(n.ctx, ast.Load) and n.id not in env and n.id not in ("isinstance", "len", "bool", "str",
+                                                                                                          "tuple", "list", "dict", "None", "True", "False"):
+                raise PureEvalError(f"name `{n.id}` is not bound")
+            elif isinstance(n, (ast.Lambda, ast.Yield, ast.YieldFrom, ast.Await, ast.NamedExpr)):
+                raise PureEvalError(f"{type(n).__name__} outside the builder subset")
+        try:
+            return eval(compile(ast.Expression(e), "<builder expr>", "eval"), {"__builtins__": {"isinstance": isinstance, "len": len, "bool": bool,
+                                                                                              "str": str, "tuple": tuple, "list": list,
+                                                                                              "dict": dict}}, env)  # noqa: S307
+        except PureEvalError:
+            raise
+        except Exception as ex:  # the builder itself failed on this input
+            raise PureEvalError(f"{type(ex).__name__}: {ex}")
+    return ev
+
+
+def eval_pure_function(fn: ast.FunctionDef, args: dict, data_attrs: tuple = (), extra: Optional[dict] = None, max_steps: int = 2000,
+                       expr_eval=None) -> Any:
     """Finite-domain evaluation of a small pure function (assignments, if/else, return; expressions from the verified pure
     subset) on concrete arguments — used to compare a helper's decisions with a specification over all inputs of a finite
     domain, whatever the shape of its code.  Anything outside the subset raises PureEvalError."""
@@ -237,6 +267,8 @@ def eval_pure_function(fn: ast.FunctionDef, args: dict, data_attrs: tuple = (), 
             self.v = v
 
     def ev(e):
+        if expr_eval is not None:
+            return expr_eval(e, env)
         try:
             return fold_expr(e, env, data_attrs=data_attrs)
         except AnalysisError as ex:
